@@ -73,28 +73,7 @@ broadcast use {
 };
 
 
-// std HashMap::get_mut has no vstd specification; ASSUMED contract (std semantics): returns the slot of the key, the
-// map is otherwise unchanged, and what is written through the reference is what the map holds afterwards.
-pub assume_specification<'a, K: Eq + Hash + std::borrow::Borrow<Q>, V, S: std::hash::BuildHasher, A: std::alloc::Allocator, Q: Hash + Eq + ?Sized>[ HashMap::<K, V, S, A>::get_mut::<Q> ](m: &'a mut HashMap<K, V, S, A>, k: &Q) -> (r: Option<&'a mut V>)
-    ensures
-        obeys_key_model::<K>() && builds_valid_hashers::<S>() ==> {
-            match r {
-                Some(v) => {
-                    &&& contains_borrowed_key(old(m)@, k)
-                    &&& maps_borrowed_key_to_value(old(m)@, k, *v)
-                    &&& final(m)@.dom() == old(m)@.dom()
-                    &&& maps_borrowed_key_to_value(final(m)@, k, *final(v))
-                    &&& forall|key: K| #![auto] old(m)@.contains_key(key)
-                            && !contains_borrowed_key(Map::<K, ()>::empty().insert(key, ()), k)
-                            ==> final(m)@[key] == old(m)@[key]
-                }
-                None => {
-                    &&& !contains_borrowed_key(old(m)@, k)
-                    &&& final(m)@ == old(m)@
-                }
-            }
-        },
-;
+//@include _shared/std_get_mut_spec.rs
 
 // ---- extracted from broker/src/broker/conn_state.rs ---------------------------------------------------
 //@item broker/src/broker/conn_state.rs struct ConnectionState
